@@ -13,7 +13,7 @@ use oracle::tables;
 use serde_json::json;
 
 pub const ID: &str = "C06";
-pub const FAMS: [&str; 6] = ["spare-bits", "residues", "class-edge", "every-length", "real-world-prefixes", "crafted"];
+pub const FAMS: [&str; 7] = ["spare-bits", "residues", "class-edge", "every-length", "real-world-prefixes", "crafted", "power-of-two-lengths"];
 
 fn spare(v: usize, level: usize, mode: usize, len: usize) -> isize {
     8 * tables::layout(v, level).data_codewords as isize - (4 + tables::cci_bits(v, mode) + tables::payload_bits(mode, len)) as isize
@@ -74,6 +74,24 @@ pub fn jobs(ctx: &Ctx) -> Vec<Job> {
                         for _ in 0..ctx.scale(500) {
                             push(&mut jobs, FAMS[3], mode, level, v, rng.below(cap + 1), &mut k);
                         }
+                    }
+                }
+            }
+        }
+    }
+    // lengths around every power of two (counts that fill a field exactly, 2^k - 1, 2^k, 2^k + 1): smallest version
+    // and version 40
+    for mode in 0..3usize {
+        for level in 0..4usize {
+            for e in 3..=12u32 {
+                for d in [-1i64, 0, 1] {
+                    let len = ((1i64 << e) + d) as usize;
+                    if len > caps.cap(40, level, mode) {
+                        continue;
+                    }
+                    for version in [None, Some(40usize), caps.vmin(level, mode, len).map(|v| (v + 1).min(40))] {
+                        k += 1;
+                        jobs.push(Job { fam: FAMS[6], class: mode, mode: Some(mode), level: Some(level), version, mask: rotate_mask(k), len, gen: k % GEN_COUNT, seed: mix(ctx.seed, k as u64), ..Default::default() });
                     }
                 }
             }
@@ -163,10 +181,23 @@ pub fn observe(ctx: &Ctx, st: &mut Stats, job: &Job) {
 
 pub fn run(ctx: &Ctx) -> Report {
     let jobs = jobs(ctx);
-    let st = pool::run(&jobs, ctx.remaining(), |st, job, _| observe(ctx, st, job));
+    let st = pool::run(&jobs, ctx.remaining(), |st, job, i| {
+        observe(ctx, st, job);
+        // every fifth job is followed, on the same thread, by a sibling: same payload, one option changed
+        if i % 5 == 0 {
+            if let Some(sib) = job.sibling(&ctx.caps) {
+                let before = st.violations.len();
+                observe(ctx, st, &sib);
+                st.count("sibling_builds_same_payload_other_option", 1);
+                for v in &mut st.violations[before..] {
+                    v.detail = format!("{} (sibling run: same payload as the job before it on this thread, one option changed; the fault may depend on that history)", v.detail);
+                }
+            }
+        }
+    });
     let mut rep = Report::new(
         st,
-        "jobs = every (version, level, mode) cell x {all lengths leaving 0..12 spare bits, lengths 0..5 and three mid lengths (all residues mod 3 / mod 2)}, 20 extra random lengths per cell at the count-width class edges (v9/10/26/27) (thorough: every length for v1-10, 26-28, 39-40, random elsewhere), 11 payload generators rotating, + every entry of the dictionary of real-world prefixes and magic byte sequences (both URL-scheme cases, byte order marks, GS1/AIM escapes, control bytes, multi-byte text) alone and with tails in its own mode and in Byte mode + crafted byte payloads (blocks of padding pattern / zeros / identical blocks; data area equal to mask patterns / uniform); the data codewords recovered from the module values (unmask, zig-zag, de-interleave; no lenient parsing) are compared bit for bit with the oracle's strict ISO 7.4 encoder (mode indicator, count width, group packing, terminator min(4,rest), zero bits to the byte boundary, 0xEC/0x11 pads to capacity); distinct key = (options, len, payload hash); every case non-trivial (even the empty segment exercises terminator and pads)",
+        "jobs = every (version, level, mode) cell x {all lengths leaving 0..12 spare bits, lengths 0..5 and three mid lengths (all residues mod 3 / mod 2)}, 20 extra random lengths per cell at the count-width class edges (v9/10/26/27) (thorough: every length for v1-10, 26-28, 39-40, random elsewhere), 11 payload generators rotating, + lengths 2^k-1, 2^k, 2^k+1 (k = 3..12) at the smallest version, one above and version 40, + every entry of the dictionary of real-world prefixes and magic byte sequences (both URL-scheme cases, byte order marks, GS1/AIM escapes, control bytes, multi-byte text) alone and with tails in its own mode and in Byte mode + crafted byte payloads (blocks of padding pattern / zeros / identical blocks; data area equal to mask patterns / uniform); the data codewords recovered from the module values (unmask, zig-zag, de-interleave; no lenient parsing) are compared bit for bit with the oracle's strict ISO 7.4 encoder (mode indicator, count width, group packing, terminator min(4,rest), zero bits to the byte boundary, 0xEC/0x11 pads to capacity); distinct key = (options, len, payload hash); every case non-trivial (even the empty segment exercises terminator and pads)",
     );
     rep.expected_sets = vec![("version_level", 160), ("class_mode", 9), ("spare_bits_0_to_12", 13), ("mode_residue", 6), ("pad_parity", 3)];
     rep.required_sets = vec![("version_level", 160), ("class_mode", 9), ("spare_bits_0_to_12", 13), ("mode_residue", 6)];
